@@ -43,6 +43,8 @@ def generate(ctx):
                "trainer": trainer, "signs": rng.randrange(4), "trace_mode": rng.choice(["cumulative", "nearest"]),
                "delayed": bool(delay) and rng.random() < 0.5, "inplace": rng.random() < 0.5,
                "reducer": rng.choice(REDUCERS), "reducer_duration": rng.choice([0.0, 3.0, 2.5, 1.0]), "classifier": target == "clone" or rng.random() < 0.5, "vmon": ["ca", "ema", None][(i // 9) % 3], "update_every": [1, 3][(i // 2) % 2], "log_pending": (i // 4) % 2 == 0,
+               # the model converted to double precision; a used target cleared before the checkpoint is loaded into it
+               "f64": i % 2 == 1, "clear_target": i % 3 != 2,
                "target": target, "reducer_clear_at": rng.choice([None, 2, 4]),
                # histories that started single-slot and were grown by a setter afterwards (connection delay range, reducer duration)
                "grown": rng.random() < 0.4,
@@ -89,6 +91,8 @@ class System:
                 if desc["trainer"] in tr.NEEDS_DELAY and cell.connection.delayedby is None:
                     continue
                 self.trainer.register_cell(f"{cn}__{nn_}", cell)
+            if desc.get("f64"):
+                self.trainer.to(torch.float64)       # a model in double precision is trained by a trainer in double precision
         dt, dur = desc["dt"], desc["reducer_duration"] * desc["dt"]
         if desc.get("grown") and dur > 0:
             self.reducer = _mk_reducer(desc, dt, 0.0)
@@ -244,6 +248,9 @@ def run_case(ctx, desc):
                     base += 2 * n_upd
             for j in range(nwarm):
                 dst.step(other[j], base + j)        # warm: shapes exist; state is arbitrary and must be overwritten by the load
+            if desc.get("clear_target") and desc["target"] != "fresh":
+                dst.layer.clear()
+                ctx.count("checkpoints_loaded_into_a_cleared_target" + (".double_precision" if desc.get("f64") else ""))
             if desc["target"] == "clone" and dst.classifier is not None:
                 # "another instance of the same configuration" obtained by copying a used one (copy.deepcopy of a plain
                 # buffer-only module; the template stays alive).  Modules holding RecordTensors are not cloned this way.
